@@ -973,6 +973,33 @@ int main (void)
       NiceCandidate *l = NULL, *r = NULL;
       printf ("ok ret %d\n", nice_agent_get_selected_pair (g->agent, atoi (w[2]), atoi (w[3]), &l, &r));
     }
+    else if (!strcmp (w[0], "settle") && n == 2) {
+      /* real-time settling for kernel TCP (ICE-TCP under back-pressure): keep dispatching ready sources, sleeping 1 ms
+       * of REAL time between rounds, until nothing was dispatched for 250 consecutive rounds (the kernel's persist timer is 200 ms) or <real ms> elapsed.
+       * Virtual time advances only by the dispatch cost. */
+      int budget = atoi (w[1]), idle = 0, rounds = 0; unsigned long d0 = total_dispatches;
+      while (rounds < budget && idle < 250) {
+        int k = iterate_ready ();
+        total_dispatches += k;
+        idle = k ? 0 : idle + 1;
+        usleep (1000); rounds++;
+      }
+      printf ("ok dispatched %lu rounds %d\n", total_dispatches - d0, rounds);
+    }
+    else if (!strcmp (w[0], "tcpbuf") && n == 2) {
+      /* shrink the kernel buffers of every connected TCP socket: back-pressure for ICE-TCP (partial writes) */
+      int fd, cnt = 0, v = atoi (w[1]);
+      for (fd = 3; fd < 1024; fd++) {
+        int type = 0, acc = 0; socklen_t l = sizeof type;
+        if (getsockopt (fd, SOL_SOCKET, SO_TYPE, &type, &l) != 0 || type != SOCK_STREAM) continue;
+        l = sizeof acc;
+        if (getsockopt (fd, SOL_SOCKET, SO_ACCEPTCONN, &acc, &l) == 0 && acc) continue;
+        setsockopt (fd, SOL_SOCKET, SO_SNDBUF, &v, sizeof v);
+        setsockopt (fd, SOL_SOCKET, SO_RCVBUF, &v, sizeof v);
+        cnt++;
+      }
+      printf ("ok sockets %d\n", cnt);
+    }
     else if (!strcmp (w[0], "leaktest")) { volatile char *x = malloc (77); x[0] = 1; x = NULL; puts ("ok"); }
     else if (!strcmp (w[0], "fdlist")) {
       int fd; char path[64], tgt[256];
